@@ -5,11 +5,12 @@ mother's division time from a partition of the mother's last state, mutual mothe
 reported row has positive volume and was simulated (also when no reaction can fire)."""
 import json, math, random
 from harness.common import fhex
+from harness import lineage_single as LS
 PID = "C19"; COQ_TARGET = "C19"
 RULE = ("partition replays: 3 splitters x per-species modes (binomial / perfect / duplicate) x volume modes x partition noise x mother states (integer counts 0-30) and volumes x seeds; "
         "lineages: models with production/decay reactions or none at all, linear / multiplicative volume rules and events, volume / time / deltaV division rules and division events, death rules and events, "
-        "time grids, seeds; non-trivial = at least one division happened or a perfect species has an odd count")
-TRUSTED = ["hand model coq/Model/Splitters.v tied by stream replay of py_partition", "the lineage worklist and the single-cell loop are decided by the harness oracle only"]
+        "time grids, seeds; single-cell replays: 5 reaction sets x volume rules (linear, multiplicative, ODE, two rules) x division rules (volume, time, deltaV, two rules) x species death rules x volume / division / death events x plain / safe x grids from 0 or 1.5 x cells born at or before the first time; non-trivial = at least one division happened or a perfect species has an odd count")
+TRUSTED = ["hand models coq/Model/Splitters.v and coq/Model/Lineage.v (single-cell loop, noise-free rules and events) tied by stream replay of py_partition / py_SimulateSingleCell", "the lineage worklist (queue of cells, schnitz links) is decided by the harness oracle only"]
 ASSUMPTIONS = ["Binomial law of the Bernoulli sum is textbook, not mechanised; chi-square only in the thorough tier as soak"]
 SPECIES = ["A", "B", "C", "D"]
 
@@ -32,6 +33,8 @@ def gen_cases(seed, tier):
                       "division": rng.choice(["rule_volume", "rule_time", "rule_deltav", "event", "none"]), "death": rng.choice(["none", "none", "rule", "event"]),
                       "dt": rng.choice([0.1, 0.25, 0.5]), "T": rng.choice([4.0, 8.0]), "modes": {"A": rng.choice(["binomial", "perfect"]), "B": rng.choice(["binomial", "duplicate", "perfect"])},
                       "noise": rng.choice([0.0, 0.2, 0.5])})
+    # the single-cell loop itself, replayed against coq/Model/Lineage.v on the recorded stream
+    for _ in range(150 if tier == "quick" else 2000): cases.append(LS.gen_single(rng))
     return cases
 
 def _mk_model():
@@ -94,9 +97,11 @@ def _lineage_impl(case):
 def impl_case(case):
     import warnings
     warnings.simplefilter("ignore")
+    if case["family"] == "single": return LS.impl(case)
     return _partition_impl(case) if case["family"] == "partition" else _lineage_impl(case)
 
 def driver_line(case, r):
+    if case["family"] == "single": return LS.driver_line(case, r)
     if case["family"] != "partition" or not r or r.get("pos", -1) < 0: return None
     order = r["order"]                    # species name -> index in the model's state vector
     idx = {s: order[i] for i, s in enumerate(SPECIES)}
@@ -113,6 +118,7 @@ def driver_line(case, r):
     return " ".join(toks)
 
 def compare(case, r, out):
+    if case["family"] == "single": return LS.compare(case, r, out)
     if case["family"] != "partition": return None
     if not r or "d" not in r: return "implementation failed: %s" % json.dumps(r)[:300]
     want = " ".join(r["d"] + ["|"] + r["e"] + ["|", r["vd"], r["ve"], str(r["pos"])])
@@ -122,6 +128,7 @@ def compare(case, r, out):
     return None
 
 def oracle(case, r):
+    if case["family"] == "single": return LS.oracle(case, r)
     if case["family"] == "partition":
         if not r or "d" not in r: return "implementation failed: %s" % json.dumps(r)[:300]
         d = [float.fromhex(v) for v in r["d"]]; e = [float.fromhex(v) for v in r["e"]]; vd, ve = float.fromhex(r["vd"]), float.fromhex(r["ve"])
@@ -179,4 +186,9 @@ def stats(cases):
 def extra_checks(ctx):
     n_div = sum(1 for c, r in zip(ctx["cases"], ctx["impl_res"]) if c["family"] == "lineage" and r and "cells" in r and len(r["cells"]) > 1)
     cells = sum(len(r["cells"]) for c, r in zip(ctx["cases"], ctx["impl_res"]) if c["family"] == "lineage" and r and "cells" in r)
-    return {"coverage": {"lineages_with_division": n_div, "lineage_cells_checked": cells}}
+    single = [(c, r) for c, r in zip(ctx["cases"], ctx["impl_res"]) if c["family"] == "single" and isinstance(r, dict)]
+    return {"coverage": {"lineages_with_division": n_div, "lineage_cells_checked": cells,
+                         "single_cell_replays": len(single), "single_cell_divided": sum(1 for c, r in single if r.get("divided", -1) >= 0),
+                         "single_cell_dead": sum(1 for c, r in single if r.get("dead", -1) >= 0), "single_cell_raised": sum(1 for c, r in single if "raised" in r),
+                         "single_cell_born_off_grid": sum(1 for c, r in single if c["cell"]["t0"] != c["times"][0]),
+                         "single_cell_uniforms_consumed": sum(max(r.get("pos", 0), 0) for c, r in single)}}
